@@ -139,6 +139,10 @@ class NameSanitizer:
             # fallback: split on non-alphanumerics
             words = re.split(r"\W+", name)
         module = "_".join(word.lower() for word in words if word)
+        if not (("_" + module) if module[:1].isdigit() else module).isidentifier():
+            # Nothing usable survived (empty, symbol-only) or the fallback kept characters that
+            # are not allowed in identifiers: keep the ASCII word characters, else use a default
+            module = re.sub(r"_+", "_", re.sub(r"[^0-9a-zA-Z_]", "_", module)).strip("_") or "unnamed"
         # If it starts with a digit, prefix with underscore
         if module and module[0].isdigit():
             module = "_" + module
@@ -210,6 +214,9 @@ class NameSanitizer:
         name = re.sub(r"[^0-9a-zA-Z_]", "_", name)
         # Lowercase and collapse multiple underscores
         name = re.sub(r"_+", "_", name).strip("_").lower()
+        if not name:
+            # Empty, symbol-only or non-ASCII-only input: fall back to a default identifier
+            name = "unnamed"
         # If it starts with a digit, prefix with underscore
         if name and name[0].isdigit():
             name = "_" + name
